@@ -98,4 +98,92 @@ theorem apart_span (I : Int) (f : List (Int × Int)) (hp : f.Pairwise (Apart I))
       rw [e]
       omega
 
+/-! ### the oracle `Spec.boundOK` decides the bound for every window -/
+
+theorem exists_min_of_ne_nil (l : List Int) (h : l ≠ []) : ∃ a ∈ l, ∀ x ∈ l, a ≤ x := by
+  induction l with
+  | nil => exact absurd rfl h
+  | cons y rest ih =>
+    cases rest with
+    | nil => exact ⟨y, by simp, by intro x hx; simp at hx; omega⟩
+    | cons z rest' =>
+      obtain ⟨a, ha, hmin⟩ := ih (by simp)
+      by_cases hya : y ≤ a
+      · refine ⟨y, by simp, ?_⟩
+        intro x hx
+        rcases List.mem_cons.mp hx with rfl | hx
+        · exact Int.le_refl _
+        · exact Int.le_trans hya (hmin x hx)
+      · refine ⟨a, List.mem_cons_of_mem _ ha, ?_⟩
+        intro x hx
+        rcases List.mem_cons.mp hx with rfl | hx
+        · omega
+        · exact hmin x hx
+
+theorem exists_max_of_ne_nil (l : List Int) (h : l ≠ []) : ∃ b ∈ l, ∀ x ∈ l, x ≤ b := by
+  induction l with
+  | nil => exact absurd rfl h
+  | cons y rest ih =>
+    cases rest with
+    | nil => exact ⟨y, by simp, by intro x hx; simp at hx; omega⟩
+    | cons z rest' =>
+      obtain ⟨b, hb, hmax⟩ := ih (by simp)
+      by_cases hyb : b ≤ y
+      · refine ⟨y, by simp, ?_⟩
+        intro x hx
+        rcases List.mem_cons.mp hx with rfl | hx
+        · exact Int.le_refl _
+        · exact Int.le_trans (hmax x hx) hyb
+      · refine ⟨b, List.mem_cons_of_mem _ hb, ?_⟩
+        intro x hx
+        rcases List.mem_cons.mp hx with rfl | hx
+        · omega
+        · exact hmax x hx
+
+theorem filter_length_le_of_imp {α : Type} (l : List α) (p q : α → Bool) (h : ∀ x ∈ l, p x = true → q x = true) :
+    (l.filter p).length ≤ (l.filter q).length := by
+  induction l with
+  | nil => simp
+  | cons x rest ih =>
+    have ih' := ih (fun y hy => h y (List.mem_cons_of_mem _ hy))
+    simp only [List.filter_cons]
+    by_cases hp : p x = true
+    · have hq := h x (by simp) hp
+      simp [hp, hq]; exact ih'
+    · by_cases hq : q x = true
+      · simp [hp, hq]; omega
+      · simp [hp, hq]; exact ih'
+
+/-- If `boundOK` accepts a list of start times, the bound holds for every window. -/
+theorem boundOK_sound (I B : Int) (hI : 0 < I) (hB : 0 ≤ B) (gs : List Int) (h : Spec.boundOK I B gs = true)
+    (t T : Int) (hT : 0 ≤ T) : (Spec.countIn gs t T : Int) ≤ B + ceilDiv T I := by
+  have hceil : 0 ≤ ceilDiv T I := Int.ediv_nonneg (by omega) (Int.le_of_lt hI)
+  by_cases hW : gs.filter (fun g => decide (t < g ∧ g ≤ t + T)) = []
+  · simp only [Spec.countIn, hW, List.length_nil, Int.natCast_zero]; omega
+  · obtain ⟨a, ha, hmin⟩ := exists_min_of_ne_nil _ hW
+    obtain ⟨b, hb, hmax⟩ := exists_max_of_ne_nil _ hW
+    have ha' := List.mem_filter.mp ha
+    have hb' := List.mem_filter.mp hb
+    have haw : t < a ∧ a ≤ t + T := by simpa using ha'.2
+    have hbw : t < b ∧ b ≤ t + T := by simpa using hb'.2
+    have hab : a ≤ b := hmin b hb
+    have hall := (List.all_eq_true.mp ((List.all_eq_true.mp h) a ha'.1)) b hb'.1
+    simp only [hab, if_true, decide_eq_true_eq] at hall
+    -- the window (a-1, b] holds every start of (t, t+T]
+    have hle : Spec.countIn gs t T ≤ Spec.countIn gs (a - 1) (b - a + 1) := by
+      unfold Spec.countIn
+      apply filter_length_le_of_imp
+      intro x hx hpx
+      have hxw : t < x ∧ x ≤ t + T := by simpa using hpx
+      have hxW : x ∈ gs.filter (fun g => decide (t < g ∧ g ≤ t + T)) := List.mem_filter.mpr ⟨hx, hpx⟩
+      have h1 := hmin x hxW
+      have h2 := hmax x hxW
+      simp only [decide_eq_true_eq]
+      omega
+    have hmono : ceilDiv (b - a + 1) I ≤ ceilDiv T I := by
+      unfold ceilDiv
+      exact Int.ediv_le_ediv hI (by omega)
+    have : (Spec.countIn gs t T : Int) ≤ (Spec.countIn gs (a - 1) (b - a + 1) : Int) := by exact_mod_cast hle
+    omega
+
 end ShellOp.RateLimit
